@@ -1,19 +1,19 @@
-\* C41 quick: all (context, a, b, d) on a reduced tip domain
+\* C41 thorough: legacy density resolution, all (context, a, b, d); spans 200..600 slots apart at 10^6 give chains of near ties
 CONSTANT MaxBN = 1
-CONSTANT MaxVRF = 1
-CONSTANT MaxSlot = 2
-CONSTANT ForkSlots = {0}
-CONSTANT Windows = {0, 1}
+CONSTANT MaxVRF = 0
+CONSTANT MaxSlot = 1
+CONSTANT ForkSlots = {1}
+CONSTANT Windows = {0}
 CONSTANT DepthSet = "min"
 CONSTANT TrimShallow = TRUE
 CONSTANT Arity = 3
-CONSTANT SampleMod = 11
-CONSTANT TipKind = "slots"
-CONSTANT RBlocks = {}
-CONSTANT SpanBases = {}
-CONSTANT SpanMults = {}
-CONSTANT SpanOffsets = {}
-CONSTANT ResRoot = 1
+CONSTANT SampleMod = 61
+CONSTANT TipKind = "ratio"
+CONSTANT RBlocks = {2, 3}
+CONSTANT SpanBases = {3, 1000000}
+CONSTANT SpanMults = {1}
+CONSTANT SpanOffsets = {-600, -200, 0, 1, 200}
+CONSTANT ResRoot = 31623
 INIT Init
 NEXT Next
 INVARIANT Reflexive
@@ -24,7 +24,6 @@ INVARIANT LongerWins
 INVARIANT LowerVrfWins
 INVARIANT MissingVrfLoses
 INVARIANT EqualIffSameKey
-INVARIANT DeepDensityFirst
 INVARIANT DeepDenserWins
 INVARIANT DenserIsStrict
 INVARIANT DensityOrderIsDenser
@@ -33,3 +32,4 @@ INVARIANT UnequalRatioDecides
 INVARIANT EqualRatioTies
 INVARIANT Transitive
 INVARIANT DensityTieTransitive
+INVARIANT PreferredOrderFree
